@@ -827,6 +827,14 @@ func fillHashHelper(r interface{}, depth int, env *Zlisp, preferSym bool) (Sexp,
 }
 
 func (h *SexpHash) nestedPathGetSet(env *Zlisp, dotpaths []string, setVal *Sexp) (Sexp, error) {
+	return h.nestedPathGetSetIn(env, dotpaths, setVal, nil)
+}
+
+// nestedPathGetSetIn walks dotpaths down from h. If the hash was
+// reached through a package path, pkg is that package: hash members
+// then obey the same privacy rule as the package's own members,
+// lower-case names cannot be read or assigned from outside.
+func (h *SexpHash) nestedPathGetSetIn(env *Zlisp, dotpaths []string, setVal *Sexp, pkg *Stack) (Sexp, error) {
 
 	if len(dotpaths) == 0 {
 		return SexpNull, fmt.Errorf("internal error: in nestedPathGetSet() dotpaths" +
@@ -840,6 +848,12 @@ func (h *SexpHash) nestedPathGetSet(env *Zlisp, dotpaths []string, setVal *Sexp)
 	//Q("\n in nestedPathGetSet, dotpaths=%#v\n", dotpaths)
 	for i := range dotpaths {
 		if setVal != nil && i == lenpath-1 {
+			if pkg != nil {
+				err = errIfPrivate(dotpaths[i], pkg)
+				if err != nil {
+					return SexpNull, err
+				}
+			}
 			// assign now
 			err = askh.HashSet(env.MakeSymbol(dotpaths[i][1:]), *setVal)
 			//P("\n i=%v in nestedPathGetSet, dotpaths[i][1:]='%v' call to "+
@@ -851,6 +865,16 @@ func (h *SexpHash) nestedPathGetSet(env *Zlisp, dotpaths []string, setVal *Sexp)
 		//	"HashGet returned '%s'\n", i, dotpaths[i][1:], ret.SexpString(nil))
 		if err != nil {
 			return SexpNull, err
+		}
+		if pkg != nil {
+			// nested packages may be traversed whatever the case of
+			// the name they are stored under; anything else is a member.
+			if _, isPkg := ret.(*Stack); !isPkg {
+				err = errIfPrivate(dotpaths[i], pkg)
+				if err != nil {
+					return SexpNull, err
+				}
+			}
 		}
 		if i == lenpath-1 {
 			return ret, nil
